@@ -63,8 +63,9 @@ Fixpoint serialise (e : endpoints) (segs : list out_seg) : result (list (Z * byt
   end.
 
 Definition session_traffic (keylog : list secret) (s : tsession) : result (list traffic_entry) :=
-  do s' <- get_tls_records C suite_table suite_parts keylog (opt_metadata o) s (ts_packet_buffer s);
-  Ok (ts_traffic s').
+  do st <- get_tls_records C suite_table suite_parts keylog (opt_metadata o) (ts_server_ip s) (ts_server_port s)
+                          {| rs_server_pbuf := []; rs_client_pbuf := []; rs_core := ts_core s |} (ts_packet_buffer s);
+  Ok (ts_traffic (rs_core st)).
 
 Definition session_segments (keylog : list secret) (s : tsession) : result (list out_seg) :=
   do tr <- session_traffic keylog s; build tr.
